@@ -473,7 +473,18 @@ fn main() {
             .unwrap_or_else(|_| vec!["<missing>".to_string()]);
         cargo_rows.push((label.to_string(), lines));
     }
-    let inv_out = inv::emit(&inv_files) + &inv::emit_rows("cargo", &cargo_rows);
+    // the set of source files of the two crates
+    let mut file_rows = vec![];
+    for (label, rel) in [("indextree/src", "."), ("indextree-macros/src", "../../indextree-macros/src")] {
+        let mut names: Vec<String> = std::fs::read_dir(format!("{}/{}", src, rel))
+            .map(|d| d.filter_map(|e| e.ok()).map(|e| e.file_name().to_string_lossy().to_string()).collect())
+            .unwrap_or_default();
+        names.sort();
+        file_rows.push((label.to_string(), names));
+    }
+    let has_build_rs = ["../build.rs", "../../indextree-macros/build.rs"].iter().any(|p| std::path::Path::new(&format!("{}/{}", src, p)).exists());
+    file_rows.push(("build scripts".to_string(), if has_build_rs { vec!["present".to_string()] } else { vec![] }));
+    let inv_out = inv::emit(&inv_files) + &inv::emit_rows("cargo", &cargo_rows) + &inv::emit_rows("files", &file_rows);
     let inv_path = format!("{}/GenInventory.v", outdir);
     if std::fs::read_to_string(&inv_path).map(|old| old != inv_out).unwrap_or(true) {
         std::fs::write(&inv_path, inv_out).unwrap();
